@@ -4,7 +4,8 @@
    Convert.v and is related to this one by resolution through a table.
 
    Two-level terms (DESIGN.md A.5): atoms, and sets of atoms.  Sets are lists:
-   the code does not de-duplicate or sort them. *)
+   a set literal is kept as written (repetitions included, not sorted); the
+   set operators return each element once. *)
 From BV Require Import Base.
 
 Inductive atom :=
@@ -51,10 +52,13 @@ Definition atom_eqb (a b : atom) : bool :=
 
 Definition set_contains (s : list atom) (a : atom) : bool := existsb (fun x => atom_eqb x a) s.
 
-(* Set.Equal: same length and every element of the receiver occurs in the
-   argument (as the code does it — not symmetric when elements repeat) *)
+(* Set.Equal: same length, every element of the receiver occurs in the argument
+   and every element of the argument occurs in the receiver.  With both
+   inclusions it is an equivalence relation on lists, also when elements repeat
+   ([1, 1] and [1, 2] are different in both directions; [1, 1] and [1] differ by
+   their length) — proofs in Proofs/DatalogProofs.v *)
 Definition set_equal (s c : list atom) : bool :=
-  Nat.eqb (length c) (length s) && forallb (set_contains c) s.
+  Nat.eqb (length c) (length s) && forallb (set_contains c) s && forallb (set_contains s) c.
 
 Definition term_eqb (a b : term) : bool :=
   match a, b with
@@ -63,9 +67,15 @@ Definition term_eqb (a b : term) : bool :=
   | _, _ => false
   end.
 
-Definition set_intersect (s t : list atom) : list atom := filter (set_contains t) s.
+(* Set.Intersect / Set.Union: the result is built by appending, and an element
+   is appended only if the result does not contain it yet — each element once,
+   in the order of first occurrence, whatever the repetitions in the operands *)
+Definition set_add (acc : list atom) (a : atom) : list atom :=
+  if set_contains acc a then acc else acc ++ [a].
+Definition set_intersect (s t : list atom) : list atom :=
+  fold_left (fun acc a => if set_contains t a then set_add acc a else acc) s [].
 Definition set_union (s t : list atom) : list atom :=
-  s ++ filter (fun a => negb (set_contains s a)) t.
+  fold_left set_add t (fold_left set_add s []).
 
 Record pred := { p_name : bytes; p_terms : list term }.
 
